@@ -493,7 +493,17 @@ impl ThreadPool {
     /// *not* shut down.)
     pub fn shut_down(&self) {
         let mut group_records = self.group.records.lock().unwrap();
-        group_records.pools.remove(self.key);
+        // The pool may already have been removed from the group (by an
+        // earlier call, or by ThreadGroup::shut_down), and its key may
+        // since have been reused for another pool. Slab::remove panics
+        // on a vacant key, which would poison the group's mutex.
+        if group_records
+            .pools
+            .get(self.key)
+            .map_or(false, |pool| std::ptr::eq(Arc::as_ptr(pool), self))
+        {
+            group_records.pools.remove(self.key);
+        }
         drop(group_records);
         self.shut_down_without_removing();
     }
